@@ -204,7 +204,7 @@ def gen_structured_grammar(r, with_transl=True, kind=None):
     if kind == 'err-alts':
         return gen_err_alts(r)
     kind = kind or r.choice(['follow-chain', 'follow-chain', 'shared-alts', 'shared-alts', 'first-chain', 'nullable-prefix', 'nullable-prefix',
-                     'stmt-list', 'stmt-list', 'twice', 'twice', 'recov-race', 'recov-race', 'core-share', 'core-share', 'recov-nest', 'recov-nest', 'passthru-split', 'passthru-split', 'nullable-tail', 'nullable-tail'])
+                     'stmt-list', 'stmt-list', 'twice', 'twice', 'recov-race', 'recov-race', 'core-share', 'core-share', 'recov-nest', 'recov-nest', 'passthru-split', 'passthru-split', 'nullable-tail', 'nullable-tail', 'recov-embed'])
     inputs_fn = None
     tn = ['a', 'b', 'c', 'd', 'e']
     terms = gen_terms(r, 5)
@@ -322,6 +322,19 @@ def gen_structured_grammar(r, with_transl=True, kind=None):
             return mutate(r, t, tn) if r.random() < 0.1 else t
         g.inputs_fn = pt_inputs
         return g
+    elif kind == 'recov-embed':
+        # self-embedding with `error`: opening brackets give several consecutive identical sets
+        # that all contain `. error`; the best recovery goes back over some of them
+        terms = gen_terms(r, 4)
+        lp, rp, a, b = [n for n, _ in terms]
+        rules = [('S', [lp, 'S', rp]), ('S', [a]), ('S', ['error'])]
+        if r.random() < 0.3: rules.append(('S', [a, b]))
+        if r.random() < 0.3: rules[0] = ('S', [lp, 'S', rp, rp])
+        if r.random() < 0.3: rules.append(('S', [lp, 'S', b]))
+        def inputs_fn(r, tn):
+            d = r.randint(1, 5)
+            t = [lp] * d + r.choice([[a], [a, a], [a, b], [], [b]]) + [rp] * r.randint(0, d + 1)
+            return t[:14]
     elif kind == 'core-share':
         # one set core (same start situations in the same order) reached with different distance
         # vectors: `A : X . E F b` and `A : X E . F b` (E, F nullable) stand in one set first with
@@ -449,7 +462,7 @@ def gen_grammar(r, nnt=None, nt_=None, err_prob=0.25, maxrules=3, strict=None, w
             g = gen_err_alts(r)
             if g is not None: return g
         if err_prob >= 0.5 and r.random() < 0.12:
-            g = gen_structured_grammar(r, with_transl, kind=r.choice(['recov-nest', 'recov-nest', 'recov-race']))
+            g = gen_structured_grammar(r, with_transl, kind=r.choice(['recov-nest', 'recov-nest', 'recov-race', 'recov-embed']))
             if g is not None: return g
         if err_prob >= 0.5 and r.random() < 0.15:
             g = gen_classic_grammar(r, with_transl, err=True)
